@@ -20,7 +20,7 @@ void X__ZdaPv(void *p) { free(p); }
 void X__ZdlPvm(void *p, uint64_t n) { (void)n; free(p); }
 
 /* ---------------------------------------------------------------- C++ EH runtime */
-void *X___cxa_allocate_exception(uint64_t n) { return vf_alloc(n); }
+void *X___cxa_allocate_exception(uint64_t n) { void *p = vf_alloc(n); memset(p, 0, (size_t)n); return p; }
 void X___cxa_free_exception(void *p) { (void)p; }
 void X___cxa_throw(void *obj, void *tinfo, void *dtor) { (void)dtor; vf_eh_obj = obj; vf_eh_type = tinfo; vf_eh_pending = 1; }
 void *X___cxa_begin_catch(void *p) { return p; }
@@ -225,4 +225,16 @@ uint64_t X__ZNKSt7__cxx1112basic_stringIcSt11char_traitsIcESaIcEE5rfindEcm(void 
   uint64_t size = STR_LEN(s);
   if (size) { if (--size > pos) size = pos; for (++size; size-- > 0;) if (STR_P(s)[size] == c) return size; }
   return ~0ull;
+}
+
+/* ---------------------------------------------------------------- libstdc++ exception base classes */
+void X__ZNSt9exceptionD2Ev(void *self) { (void)self; }
+void X__ZNSt9exceptionD1Ev(void *self) { (void)self; }
+
+/* Used only where a harness CUTS the inline constructor basic_string(const char*) because the
+   string is a diagnostic message irrelevant to the property: constructs the empty string. */
+void X__ZNSt7__cxx1112basic_stringIcSt11char_traitsIcESaIcEEC2IS3_EEPKcRKS3_(void *s, void *lit, void *alloc)
+{
+  (void)lit; (void)alloc;
+  STR_P(s) = STR_LOCAL(s); STR_LEN(s) = 0; STR_LOCAL(s)[0] = 0;
 }
